@@ -606,7 +606,7 @@ theorem Inv.closeReader {s s' : State} {r : Nat} (hi : Inv s) (h : s.closeReader
         have hnc : ∀ i, fo.owner ≠ .cached i := by rw [hown]; intro i hc; cases hc
         cases added with
         | true =>
-          obtain ⟨_, hid, hlen, r', hr', hk', hv', hal'⟩ := hspec.fresh rfl
+          obtain ⟨_, hid, hlen, ⟨r', hr', hk', hv', hal'⟩, _⟩ := hspec.fresh rfl
           simp only [if_true]
           have hf1 : FileInv s.fd.rcs (s.files.set f { fo with owner := .cached id }) :=
             hi.file.set_noncached hfo hnc _
@@ -677,5 +677,287 @@ theorem Inv.closeReaderDone {s s' : State} {r : Nat} (hi : Inv s) (h : s.closeRe
       · exact hi.rd.set (by simp [RdOk]) rcs_same_kv h2.rcs_keyval (fun r' _ => evictFile_frame hi.file h2 r')
     · simp at h
   · simp at h
+
+/-! ### commitMemPublish -/
+
+theorem Inv.commitMemPublish {s s' : State} {w : Nat} (hi : Inv s) (h : s.commitMemPublish w = some s') :
+    Inv s' := by
+  unfold State.commitMemPublish at h
+  split at h
+  · rename_i wr hw
+    split at h
+    · rename_i hph
+      obtain ⟨hopen, hd⟩ := hph
+      have hok := hi.wr w wr hw
+      simp only [WrOk, hopen, hd] at hok
+      obtain ⟨⟨bf0, hbf0, hown0, hdata0⟩, hwip0⟩ := hok
+      simp only [hbf0] at h
+      simp only [Option.some.injEq] at h; subst h
+      obtain ⟨l', id, added, fired, ha⟩ : ∃ l' id added fired, s.mem.add wr.key wr.buf = (l', id, added, fired) :=
+        ⟨_, _, _, _, rfl⟩
+      simp only [ha]
+      have hwold : ∀ j, Writer.holdsMem j wr = false := fun j => by simp [Writer.holdsMem, hopen]
+      obtain ⟨h1, hspec⟩ := LRU.add_spec (h' := memHolders s.readers (setWPhase s.writers w wr (.published id)))
+        hi.mem ha
+        (by
+          have := memHolders_set_writer s.readers { wr with phase := .published id } id hw
+          have h2 : Writer.holdsMem id { wr with phase := .published id } = true := by simp [Writer.holdsMem]
+          rw [hwold, h2] at this
+          simpa [setWPhase] using this)
+        (fun j hj => by
+          have := memHolders_set_writer s.readers { wr with phase := .published id } j hw
+          have h2 : Writer.holdsMem j { wr with phase := .published id } = false := by
+            simp [Writer.holdsMem]; exact fun h => hj h.symm
+          rw [hwold, h2] at this
+          simpa [setWPhase] using this)
+      have hnc : ∀ i, bf0.owner ≠ .cached i := by rw [hown0]; intro i hc; cases hc
+      have hle := CmLe.add s.committed wr.key wr.written
+      have hcomm : CommInv (addCommitted s.committed wr.key wr.written)
+          (setWPhase s.writers w wr (.published id)) := by
+        have h0 : CommInv s.committed (setWPhase s.writers w wr (.published id)) :=
+          hi.comm.set hw (fun h1 _ => absurd hopen h1)
+        exact h0.add (w := w) (wr := { wr with phase := .published id }) (set_get_self (lt_of_get_some hw))
+          (by simp) (by simp)
+      have hrc : ∃ r : RC, l'.rcs[id]? = some r ∧ r.key = wr.key := by
+        cases added with
+        | true =>
+          obtain ⟨_, _, _, ⟨r', hr', hk', _⟩, _⟩ := hspec.fresh rfl
+          exact ⟨r', hr', hk'⟩
+        | false =>
+          obtain ⟨_, _, _, r0, r', _, hr', hk0, _, _, _, hk', _⟩ := hspec.existing rfl
+          exact ⟨r', hr', by rw [hk', hk0]⟩
+      have hself : ∀ (bufs' : List Buf), WrOk bufs' s.inodes l'.rcs (addCommitted s.committed wr.key wr.written) w
+          { wr with phase := .published id } := by
+        intro bufs'
+        simp only [WrOk]
+        exact ⟨hd, hrc, hwip0⟩
+      cases added with
+      | true =>
+        obtain ⟨_, hid, hlen, ⟨r', hr', hk', hv', hal'⟩, _⟩ := hspec.fresh rfl
+        simp only [if_true]
+        have hb1 : BufInv s.mem.rcs (s.bufs.set wr.buf { bf0 with owner := .cached id })
+            (addCommitted s.committed wr.key wr.written) := (hi.buf.set_noncached hbf0 hnc _).mono hle
+        refine ⟨(hi.pool.set _ (fun hc => by cases hc)).evict _, h1, hi.fd, ?_, hi.file, hi.fileIno,
+          hi.inoComm.mono hle, hi.diskIno, ?_, ?_, hcomm⟩
+        · refine hb1.eff hspec.eff ?_
+          intro i ri hle' hri hali
+          have hlt : i < l'.rcs.length := lt_of_get_some hri
+          have : i = id := by omega
+          subst this
+          rw [hr'] at hri; simp at hri; subst hri
+          refine ⟨{ bf0 with owner := .cached i }, by rw [hv']; exact set_get_self (lt_of_get_some hbf0), rfl, ?_⟩
+          rw [hk']; simp only; rw [hdata0]; exact mem_addCommitted _ _ _
+        · refine hi.wr.set (hself _) ?_ (fun _ _ _ _ h _ => h) hspec.eff.rcs_key hle
+          intro w' hne b bf hb ho
+          exact evictBuf_frame hb1 hspec.eff w' b bf
+            (bufs_set_frame _ hbf0 (by rw [hown0]; intro hc; cases hc; exact hne rfl) b bf hb ho) ho
+        · exact hi.rd.frame hspec.eff.rcs_keyval rcs_same_kv (fun _ _ _ h _ => h)
+      | false =>
+        obtain ⟨hfired, hlen, _⟩ := hspec.existing rfl
+        subst hfired
+        simp only [Bool.false_eq_true, if_false]
+        have hb1 : BufInv l'.rcs s.bufs s.committed := hi.buf.eff hspec.eff (no_new_of_len hlen)
+        refine ⟨hi.pool.set _ (fun _ => rfl), h1, hi.fd, (hb1.set_noncached hbf0 hnc _).mono hle, hi.file,
+          hi.fileIno, hi.inoComm.mono hle, hi.diskIno, ?_, ?_, hcomm⟩
+        · exact hi.wr.set (hself _)
+            (fun w' hne => bufs_set_frame _ hbf0 (by rw [hown0]; intro hc; cases hc; exact hne rfl))
+            (fun _ _ _ _ h _ => h) hspec.eff.rcs_key hle
+        · exact hi.rd.frame hspec.eff.rcs_keyval rcs_same_kv (fun _ _ _ h _ => h)
+    · simp at h
+  · simp at h
+
+/-! ### commitDiskWrite / commitRename / commitDone -/
+
+theorem Inv.commitDiskWrite {s s' : State} {w : Nat} {fail : Option Nat} (hi : Inv s)
+    (h : s.commitDiskWrite w fail = some s') : Inv s' := by
+  unfold State.commitDiskWrite at h
+  split at h
+  · rename_i wr hw
+    split at h
+    · rename_i rc hph
+      have hok := hi.wr w wr hw
+      simp only [WrOk, hph] at hok
+      obtain ⟨hd, ⟨r0, hr0, hk0⟩, ino0, hino0, hst0, hdata0⟩ := hok
+      have hold : Writer.holdsMem rc wr = true := by simp [Writer.holdsMem, hph]
+      have hheld : 1 ≤ memHolders s.readers s.writers rc := by
+        have := countP_pos_of_get (p := Writer.holdsMem rc) hw hold
+        simp only [memHolders]; omega
+      have halive := hi.mem.alive_of_held hr0 hheld
+      obtain ⟨bfc, hbfc, _, hdatac⟩ := hi.buf rc r0 hr0 halive
+      split at h
+      · rename_i r hr
+        rw [hr0] at hr; simp at hr; subst hr
+        split at h
+        · rename_i bf ino hbf hino
+          rw [hbfc] at hbf; simp at hbf; subst hbf
+          rw [hino0] at hino; simp at hino; subst hino
+          have hpub := pub_set_wip (x := { ino0 with data := ino0.data ++ bfc.data }) hino0 hst0
+          have hframe : ∀ (x : Inode) (w' : Nat), w' ≠ w → ∀ (i : Nat) (ino : Inode), s.inodes[i]? = some ino →
+              ino.st = .wip w' → (s.inodes.set wr.wip x)[i]? = some ino :=
+            fun x w' hne => inodes_set_frame x hino0 (by rw [hst0]; intro hc; cases hc; exact hne rfl)
+          split at h
+          · simp only [Option.some.injEq] at h; subst h
+            refine ⟨hi.pool, ?_, hi.fd, hi.buf, hi.file,
+              hi.fileIno.of_same (fun f fo h => Or.inl ⟨fo, h, rfl, rfl⟩) (pub_set_wip hino0 hst0),
+              hi.inoComm.set_wip hino0 hst0 (fun k hk => by simp [hst0] at hk),
+              hi.diskIno.of_pub (pub_set_wip hino0 hst0), ?_, hi.rd, ?_⟩
+            · refine hi.mem.congr (memHolders_set_writer_same hw (fun i => ?_))
+              simp [Writer.holdsMem, hph]
+            · refine hi.wr.set ?_ (fun _ _ _ _ h _ => h) (hframe _) rcs_same (CmLe.refl _)
+              simp only [WrOk]
+              refine ⟨⟨r0, hr0, hk0⟩, _, set_get_self (lt_of_get_some hino0), hst0, ?_⟩
+              simp only [hdata0, List.nil_append]; rw [← hk0]; exact hdatac
+            · exact hi.comm.set hw (fun _ _ => ⟨rfl, rfl, by simp, by simp⟩)
+          · rename_i n
+            simp only [Option.some.injEq] at h; subst h
+            refine ⟨hi.pool, ?_, hi.fd, hi.buf, hi.file,
+              hi.fileIno.of_same (fun f fo h => Or.inl ⟨fo, h, rfl, rfl⟩) (pub_set_wip hino0 hst0),
+              hi.inoComm.set_wip hino0 hst0 (fun k hk => by simp [hst0] at hk),
+              hi.diskIno.of_pub (pub_set_wip hino0 hst0), ?_, hi.rd, ?_⟩
+            · refine hi.mem.congr (memHolders_set_writer_same hw (fun i => ?_))
+              simp [Writer.holdsMem, hph]
+            · refine hi.wr.set ?_ (fun _ _ _ _ h _ => h) (hframe _) rcs_same (CmLe.refl _)
+              simp only [WrOk]
+              exact ⟨r0, hr0⟩
+            · exact hi.comm.set hw (fun _ _ => ⟨rfl, rfl, by simp, by simp⟩)
+        · simp at h
+      · simp at h
+    · simp at h
+  · simp at h
+
+theorem Inv.commitRename {s s' : State} {w : Nat} (hi : Inv s) (h : s.commitRename w = some s') : Inv s' := by
+  unfold State.commitRename at h
+  split at h
+  · rename_i wr hw
+    split at h
+    · rename_i ino hino
+      simp only at h
+      have hok := hi.wr w wr hw
+      have hdisk : ∀ (st : IState) (hst : ino.st = st) (w0 : Nat), st = .wip w0 →
+          DiskIno (fun k => if k = wr.key then some wr.wip else s.disk k)
+            (s.inodes.set wr.wip { ino with st := .pub wr.key }) := by
+        intro st hst w0 hw0 k i hk
+        simp only at hk
+        split at hk
+        · rename_i hkk
+          simp at hk; subst hk; subst hkk
+          exact ⟨_, set_get_self (lt_of_get_some hino), rfl⟩
+        · obtain ⟨ino', h1, h2⟩ := hi.diskIno k i hk
+          exact pub_set_wip hino (by rw [hst, hw0]) i ino' k h1 h2
+      split at h
+      · rename_i rc hph
+        simp only [WrOk, hph] at hok
+        obtain ⟨⟨r0, hr0, hk0⟩, ino0, hino0, hst0, hdata0⟩ := hok
+        rw [hino] at hino0; simp at hino0; subst hino0
+        simp only [Option.some.injEq] at h; subst h
+        refine ⟨hi.pool, ?_, hi.fd, hi.buf, hi.file,
+          hi.fileIno.of_same (fun f fo h => Or.inl ⟨fo, h, rfl, rfl⟩) (pub_set_wip hino hst0),
+          hi.inoComm.set_wip hino hst0 (fun k hk => by simp at hk; subst hk; exact hdata0),
+          hdisk _ rfl w hst0, ?_, hi.rd, ?_⟩
+        · refine hi.mem.congr (memHolders_set_writer_same hw (fun i => ?_))
+          simp [Writer.holdsMem, hph]
+        · refine hi.wr.set ?_ (fun _ _ _ _ h _ => h)
+            (fun w' hne => inodes_set_frame _ hino (by rw [hst0]; intro hc; cases hc; exact hne rfl))
+            rcs_same (CmLe.refl _)
+          simp only [WrOk]
+          exact ⟨r0, hr0⟩
+        · exact hi.comm.set hw (fun _ _ => ⟨rfl, rfl, by simp, by simp⟩)
+      · rename_i hph
+        split at h
+        · rename_i hd
+          simp only [WrOk, hph, hd, if_true] at hok
+          obtain ⟨ino0, hino0, hst0, hdata0⟩ := hok
+          rw [hino] at hino0; simp at hino0; subst hino0
+          simp only [Option.some.injEq] at h; subst h
+          have hle := CmLe.add s.committed wr.key wr.written
+          refine ⟨hi.pool, ?_, hi.fd, hi.buf.mono hle, hi.file,
+            hi.fileIno.of_same (fun f fo h => Or.inl ⟨fo, h, rfl, rfl⟩) (pub_set_wip hino hst0),
+            (hi.inoComm.mono hle).set_wip hino hst0 (fun k hk => by
+              simp at hk; subst hk; simp only; rw [hdata0]; exact mem_addCommitted _ _ _),
+            hdisk _ rfl w hst0, ?_, hi.rd, ?_⟩
+          · refine hi.mem.congr (memHolders_set_writer_same hw (fun i => ?_))
+            simp [Writer.holdsMem, hph]
+          · refine hi.wr.set ?_ (fun _ _ _ _ h _ => h)
+              (fun w' hne => inodes_set_frame _ hino (by rw [hst0]; intro hc; cases hc; exact hne rfl))
+              rcs_same hle
+            simp only [WrOk]
+          · have h0 : CommInv s.committed (setWPhase s.writers w wr .committed) :=
+              hi.comm.set hw (fun h1 _ => absurd hph h1)
+            exact h0.add (w := w) (wr := { wr with phase := .committed }) (set_get_self (lt_of_get_some hw))
+              (by simp) (by simp)
+        · simp at h
+      · simp at h
+    · simp at h
+  · simp at h
+
+theorem Inv.commitDone {s s' : State} {w : Nat} (hi : Inv s) (h : s.commitDone w = some s') : Inv s' := by
+  unfold State.commitDone at h
+  split at h
+  · rename_i wr hw
+    split at h
+    · rename_i rc hph
+      simp only [Option.some.injEq] at h; subst h
+      have hold : Writer.holdsMem rc wr = true := by simp [Writer.holdsMem, hph]
+      have hheld : 1 ≤ memHolders s.readers s.writers rc := by
+        have := countP_pos_of_get (p := Writer.holdsMem rc) hw hold
+        simp only [memHolders]; omega
+      obtain ⟨h1, h2, h3, _⟩ := LRU.dec_spec (h' := memHolders s.readers (setWPhase s.writers w wr .committed))
+        hi.mem hheld
+        (by
+          have := memHolders_set_writer s.readers { wr with phase := .committed } rc hw
+          rw [hold] at this
+          have h2 : Writer.holdsMem rc { wr with phase := .committed } = false := by simp [Writer.holdsMem]
+          rw [h2] at this
+          simpa [setWPhase] using this)
+        (fun j hj => by
+          have := memHolders_set_writer s.readers { wr with phase := .committed } j hw
+          have h1 : Writer.holdsMem j wr = false := by
+            simp [Writer.holdsMem, hph]; exact fun h => hj h.symm
+          have h2 : Writer.holdsMem j { wr with phase := .committed } = false := by simp [Writer.holdsMem]
+          rw [h1, h2] at this
+          simpa [setWPhase] using this)
+      refine ⟨hi.pool.evict _, h1, hi.fd, hi.buf.eff h2 (no_new_of_len h3), hi.file, hi.fileIno, hi.inoComm,
+        hi.diskIno, ?_, ?_, ?_⟩
+      · refine hi.wr.set ?_ (fun w' _ => evictBuf_frame hi.buf h2 w') (fun _ _ _ _ h _ => h) h2.rcs_key (CmLe.refl _)
+        simp only [WrOk]
+      · exact hi.rd.frame h2.rcs_keyval rcs_same_kv (fun _ _ _ h _ => h)
+      · exact hi.comm.set hw (fun _ _ => ⟨rfl, rfl, by simp, by simp⟩)
+    · simp at h
+  · simp at h
+
+/-! ### every reachable state satisfies the invariant -/
+
+theorem Inv.step? {s s' : State} {a : Step} (hi : Inv s) (h : s.step? a = some s') : Inv s' := by
+  cases a with
+  | addOpen k o reuse => exact hi.addOpen h
+  | write w p => exact hi.write h
+  | commitMemPublish w => exact hi.commitMemPublish h
+  | commitDiskWrite w f => exact hi.commitDiskWrite h
+  | commitRename w => exact hi.commitRename h
+  | commitDone w => exact hi.commitDone h
+  | abort w => exact hi.abort h
+  | closeWriter w => exact hi.closeWriter h
+  | getMem k o => exact hi.getMem h
+  | getFd k o => exact hi.getFd h
+  | getOpen k o => exact hi.getOpen h
+  | read r => exact hi.read h
+  | closeReader r => exact hi.closeReader h
+  | closeReaderDone r => exact hi.closeReaderDone h
+
+theorem Inv.step {s : State} (a : Step) (hi : Inv s) : Inv (s.step a) := by
+  unfold State.step
+  cases h : s.step? a with
+  | none => exact hi
+  | some s' => exact hi.step? h
+
+theorem Inv.run {s : State} (steps : List Step) (hi : Inv s) : Inv (s.run steps) := by
+  induction steps generalizing s with
+  | nil => exact hi
+  | cons a t ih => exact ih (hi.step a)
+
+theorem Inv.new (memCap fdCap : Nat) (cfg : Config) : Inv (State.new memCap fdCap cfg) := by
+  refine ⟨?_, ⟨?_, ?_, ?_, ?_⟩, ⟨?_, ?_, ?_, ?_⟩, ?_, ?_, ?_, ?_, ?_, ?_, ?_, ?_⟩ <;>
+    simp [State.new, PoolInv, BufInv, FileInv, FileIno, InoComm, DiskIno, WrInv, RdInv, CommInv, memHolders,
+      fdHolders]
 
 end SV.ChunkCache
